@@ -1,8 +1,8 @@
 SPECIFICATION GenSpec
 CONSTANTS
   Names = {"alice"}
-  Pws = {"Secret1", "secret1"}
-  LongPws = {}
+  Pws = {"Secret1", "secret1", "LONG"}
+  LongPws = {"LONG"}
   Pw72 = {}
   ExtraCands = {"", "SECRET1", "Secret1 ", "wrong"}
   PermSets = {{"ego.logon"}, {"ego.root"}, {"other"}}
